@@ -419,6 +419,17 @@ def gen_hist(ctx):
         add("join-inflight-direct-url-fails", b[:3], [{"t": "par", "script": {"get:1": [{"status": 302, "wait": hold}]}, "pulls": json.loads(json.dumps(two))}] + json.loads(json.dumps(tails)), tail=0, cost=9)
         # the joined download's Prepare fails (HEAD held until the second pull has joined, then 500): the error reaches both
         add("join-inflight-prepare-fails", b[:3], [{"t": "par", "script": {"head:1": [{"status": 500, "raw": hx(b"oops"), "wait": hold}]}, "pulls": json.loads(json.dumps(two))}] + json.loads(json.dumps(tails)), tail=0, cost=9)
+        # the starter's part request fails with a non-resumable error, the part goroutine sleeps in its back-off (1 s, not
+        # cancellable), the starter's client goes away 100 ms later (release cancels the run context, the entry stays in
+        # blobDownloadManager until the sleep ends); a second pull of the layer arrives inside that window and joins the
+        # cancelled transfer (or, last variant, arrives after it and resumes)
+        for kind, f, extra, other in [("garbage", {"nohdr": True}, 400, True), ("500-short", {"status": 500, "raw": hx(b"err")}, 500, False),
+                                      ("short-clean", {"cut": 0}, 600, True), ("reset", {"cut": 0, "end": "reset", "cl": n1}, 700, False), ("late", {"nohdr": True}, 1800, True)]:
+            pulls = [{"name": "ns/m:t", "manifest": {"layers": [{"blob": 1}, {"blob": 0}]}},
+                     {"name": "ns/n:t" if other else "ns/m:t", "manifest": {"layers": [{"blob": 1}, {"blob": 2}]} if other else {"layers": [{"blob": 1}, {"blob": 0}]},
+                      "after": {"key": k1, "n": 1, "extra_ms": extra}}]
+            tl = [{"t": "pull", "name": p["name"], "manifest": json.loads(json.dumps(p["manifest"])), "script": {}, "clean": True} for p in pulls]
+            add("join-during-backoff-" + kind, b[:3], [{"t": "par", "split": True, "script": {k1: [dict(f, cancel_after_ms=250, cancel_pull=0)]}, "pulls": pulls}] + tl, tail=0, cost=10)
         # one of the two clients goes away while both wait for the held layer (monitor only)
         for who in (0, 1):
             add("join-inflight-%s-cancelled" % ("starter", "joiner")[who], b[:3], [{"t": "par", "script": {k1: [{"wait": hold, "flip": rng.randrange(n1)} if rng.random() < 0.5 else {"wait": hold}]},
@@ -761,7 +772,12 @@ def render_par(ids, tab, pre, sc, so, reg_host):
         raise Unrenderable("concurrent step is not two pulls with one manifest request each")
     args = []
     for i, (p, r) in enumerate(zip(sc["pulls"], so["results"])):
-        plog, _obs = build_plog(ids, served, [mes[i]], reg_host)
+        sv = served
+        if sc.get("split"):
+            # the first pull's client has gone away before the second pull starts: what was served before the second
+            # pull's manifest GET belongs to the first attempt, the rest to the second
+            sv = [e for e in served if (e["seq"] < mes[1]["seq"]) == (i == 0)]
+        plog, _obs = build_plog(ids, sv, [mes[i]], reg_host)
         rel = "%s/%s" % (reg_host, p["name"].replace(":", "/"))
         args += [cq_N(ids.name(rel)), plog, cq_bool(r["success"])]
     return "chk_par %s %s %s %s %s" % (tab, cq_bool(FX), cq_store(ids, pre), " ".join(args), cq_store(ids, so["store"]))
@@ -1107,7 +1123,7 @@ def run(ctx, only=None):
             items.append(term)
             owners.append((ci, si))
     ctx.extra["pull_wall_ms_max"] = max(walls) if walls else 0
-    bad, log = ctx.coq_eval(HEADER, items, per_file=120)
+    bad, log = ctx.coq_eval(HEADER, items, per_file=340)
     if bad is None:
         ctx.obligation("correspondence: model evaluated on all cases", False, log)
         ctx.proof_failures.append({"obligation": "correspondence evaluation failed in coqc", "detail": log})
